@@ -327,7 +327,7 @@ fn run_thread(ops: &[Op2], filter: &Filter, rec: &(dyn Recorder + Sync), log: &c
     result.map(|_| nontrivial)
 }
 
-fn case_spans(bytes: &[u8], _s: &[u8], ctx: &mut Ctx) -> Result<(), Fail> {
+pub fn case_spans(bytes: &[u8], _s: &[u8], ctx: &mut Ctx) -> Result<(), Fail> {
     let mut src = Source::new(bytes);
     let case = decode(&mut src);
     ctx.case(&case);
